@@ -101,6 +101,8 @@ func RunC11(prop string, tr *Trace, sc *Script, rec *Recorder, scratch string) (
 	var lastMER, lastRER common.Hash
 	seenGER := map[common.Hash]bool{}
 	rollup := NewRefSparse()
+	zeroOverNonZero := false
+	mockRollup := NewRefSparse() // the mock's own leaves (it stores zero exit roots too)
 	maxRollup := uint32(0)
 	var pendingExp []c11Expect
 	head, _ := cl.HeaderByNumber(context.Background(), nil)
@@ -241,8 +243,18 @@ func RunC11(prop string, tr *Trace, sc *Script, rec *Recorder, scratch string) (
 				if err != nil {
 					return &Violation{Oracle: "harness", Detail: "getRollupExitRoot: " + err.Error()}
 				}
+				if mockRollup.Root() != common.Hash(want) {
+					return &Violation{Oracle: "harness", Detail: fmt.Sprintf("model of the rollup-manager mock disagrees with the mock: %s vs %s", mockRollup.Root().Hex(), common.Hash(want).Hex())}
+				}
 				if rollup.Root() != common.Hash(want) {
-					return &Violation{Oracle: "harness", Detail: fmt.Sprintf("reference rollup exit tree disagrees with the contract: %s vs %s", rollup.Root().Hex(), common.Hash(want).Hex())}
+					if zeroOverNonZero {
+						// the mock cleared the leaf; the property keeps the last non-zero exit root: from here on the
+						// node is compared with the reference only (CheckRef below)
+						rec.Stats.Inc("mock_cleared_leaf_on_zero_exit_root")
+						want = [32]byte(rollup.Root())
+					} else {
+						return &Violation{Oracle: "harness", Detail: fmt.Sprintf("reference rollup exit tree disagrees with the contract: %s vs %s", rollup.Root().Hex(), common.Hash(want).Hex())}
+					}
 				}
 				if len(model.VBs) > 0 {
 					got, err := store.F.GetLastRollupExitRoot(bg)
@@ -334,6 +346,12 @@ func RunC11(prop string, tr *Trace, sc *Script, rec *Recorder, scratch string) (
 				er = cur // unchanged
 			case r.Bool(12) && !has:
 				er = common.Hash{} // zero root for a rollup that has none yet
+			case r.Bool(10) && has:
+				// zero root for a rollup that already has one: the node keeps the last non-zero root (the
+				// property's wording); what the rollup-manager mock does with it is its own business
+				er = common.Hash{}
+				zeroOverNonZero = true
+				rec.Stats.Inc("zero_exit_root_over_non_zero")
 			default:
 				er = genHash(r)
 			}
@@ -351,6 +369,9 @@ func RunC11(prop string, tr *Trace, sc *Script, rec *Recorder, scratch string) (
 			}
 			if er != (common.Hash{}) {
 				rollup.Set(rid-1, er)
+				mockRollup.Set(rid-1, er)
+			} else {
+				delete(mockRollup.Leaves, rid-1) // the mock stores the zero root: the leaf is empty again
 			}
 			if rid > maxRollup {
 				maxRollup = rid
@@ -359,7 +380,7 @@ func RunC11(prop string, tr *Trace, sc *Script, rec *Recorder, scratch string) (
 			if upd {
 				// the rollup manager returns bytes32(0) only while no rollup exists; with rollups whose
 				// exit roots are all zero it returns the root of the all-zero tree
-				lastRER = rollup.Root()
+				lastRER = mockRollup.Root() // what the mock hands to the GER contract
 				expectUpdate(&e)
 			}
 			pendingExp = append(pendingExp, e)
